@@ -99,6 +99,20 @@ func valueRat(v reflect.Value) (*big.Rat, bool) {
 		}
 		r, _ := x.Rat(nil)
 		return r, true
+	case apd.Decimal:
+		if x.Form != apd.Finite {
+			return nil, false
+		}
+		r := decRat(&x.Coeff, int64(x.Exponent))
+		if x.Negative {
+			r.Neg(r)
+		}
+		return r, true
+	case compact_float.DFloat:
+		if x.IsSpecial() {
+			return nil, false
+		}
+		return decRat(big.NewInt(x.Coefficient), int64(x.Exponent)), true
 	}
 	switch v.Kind() {
 	case reflect.Int, reflect.Int8, reflect.Int16, reflect.Int32, reflect.Int64:
@@ -129,6 +143,7 @@ var convDests = []convDest{
 	{"float32", float32(0), "float"}, {"float64", float64(0), "float"},
 	{"big.Int", big.Int{}, "bigint"}, {"*big.Int", (*big.Int)(nil), "bigint"},
 	{"big.Float", big.Float{}, "bigfloat"}, {"*big.Float", (*big.Float)(nil), "bigfloat"},
+	{"apd.Decimal", apd.Decimal{}, "bigdecimal"}, {"*apd.Decimal", (*apd.Decimal)(nil), "bigdecimal"},
 }
 
 // numericSources: every event form with boundary magnitudes
@@ -191,7 +206,7 @@ func runC19(r *Run) {
 		}
 		for _, d := range convDests {
 			// in scope: any numeric value into int/uint/big.Int/big.Float; integer values into float
-			if d.class == "float" && srcClass != "int" {
+			if (d.class == "float" || d.class == "bigdecimal") && srcClass != "int" {
 				continue
 			}
 			text := fmt.Sprintf("%s -> %s", src.Text(), d.name)
@@ -226,6 +241,18 @@ func runC19(r *Run) {
 			r.out.Count("result:ok")
 			got, ok := valueRat(reflect.ValueOf(v))
 			key := srcClass + "->" + d.class
+			if d.class == "bigdecimal" {
+				// an apd.Decimal keeps its sign in Negative; a negative coefficient is a malformed value
+				// (Sign, Cmp and arithmetic read it wrongly) even when it prints like the right number
+				rv := reflect.ValueOf(v)
+				for rv.Kind() == reflect.Ptr && !rv.IsNil() {
+					rv = rv.Elem()
+				}
+				if dd, isDec := rv.Interface().(apd.Decimal); isDec && dd.Coeff.Sign() < 0 {
+					r.out.Finding("C19", "malformed:"+key, fmt.Sprintf("%s unmarshals into %s as a decimal with a negative coefficient (Negative=%v): Sign() is %d", src.Text(), d.name, dd.Negative, dd.Sign()), text)
+					continue
+				}
+			}
 			if !finite {
 				// NaN / infinity / nil cannot be an integer or big number: success would be a silent change
 				if d.class == "int" || d.class == "uint" || d.class == "bigint" {
